@@ -324,6 +324,8 @@ def _samedoc(ck, p, byk):
         cfg = Cfg(f)
         pv = Prov(f, opaque=["core::clone::Clone::clone"])
         save = [(bi, t) for bi, t in f.calls() if method(t) == "clone" and "config" in arg_fields(pv, t["args"][0])]
+        # ... or the old configuration is moved out instead of copied (the group is replaced anyway)
+        save = save or [(bi, t) for bi, t in f.calls() if last(norm(inst_of(t) or "")) in ("take", "replace") and "mem" in norm(inst_of(t) or "") and t["args"] and "config" in arg_fields(pv, t["args"][0])]
         cmd = one(f, lambda t: inst_of(t).endswith("::construct_merged_dict"))
         new = one(f, lambda t: inst_of(t).endswith("::new_curated_empty_config") or inst_of(t).endswith("::new_curated"))
         mrg = one(f, lambda t: inst_of(t).endswith("lint_group::{impl}::merge_from"))
